@@ -15,7 +15,6 @@ from ..engine import rule, describe, selftest, Mutant, Twin
 
 VEC = 'openmdao/vectors/vector.py'
 DVEC = 'openmdao/vectors/default_vector.py'
-IDX = 'openmdao/utils/indexer.py'
 
 describe('C33',
          'Decides from the source of vectors/vector.py and vectors/default_vector.py: (opname) iadd/isub/'
@@ -99,10 +98,6 @@ class Ev:
 
     def __init__(self, kind, a=None, b=None, op=None, stmt=None):
         self.kind, self.a, self.b, self.op, self.stmt = kind, a, b, op, stmt
-
-    def key(self):
-        return (self.kind, self.op, astx.dump(self.a) if isinstance(self.a, ast.AST) else self.a,
-                astx.dump(self.b) if isinstance(self.b, ast.AST) else self.b)
 
 
 class St:
@@ -855,6 +850,18 @@ def _spine(e):
             return out
 
 
+_META = ('shape', 'size', 'ndim')
+
+
+def _meta_only(spine):
+    """True if the chain only reads layout metadata (x.view.shape) of the data, not its values."""
+    for i, x in enumerate(spine):
+        if isinstance(x, ast.Attribute) and x.attr in _DATA_ATTRS:
+            above = spine[:i]
+            return any(isinstance(y, ast.Attribute) and y.attr in _META for y in above)
+    return False
+
+
 def data_chains(e):
     """Maximal access chains in e that read a data attribute (view/flat/_data)."""
     found = []
@@ -864,7 +871,8 @@ def data_chains(e):
                 (isinstance(n, ast.Call) and isinstance(n.func, ast.Attribute)):
             sp = _spine(n)
             if any(isinstance(x, ast.Attribute) and x.attr in _DATA_ATTRS for x in sp):
-                found.append(n)
+                if not _meta_only(sp):
+                    found.append(n)
                 for x in sp:   # arguments and indices hang off the spine
                     if isinstance(x, ast.Subscript):
                         rec(x.slice)
@@ -924,8 +932,8 @@ def cs_gate(chk):
         s_off = d_off[pc]
         if len(s_on.events) != len(s_off.events) or \
                 any(a.kind != b.kind or a.op != b.op for a, b in zip(s_on.events, s_off.events)):
-            chk.bad(fn.node, 'with and without complex step the method performs different operations '
-                    f'(condition {sorted(pc)})', 'gate-shape')
+            chk.unsure(fn.node, 'with and without complex step the method performs different operations '
+                       f'(condition {sorted(pc)})')
             return None
         for a, b in zip(s_on.events, s_off.events):
             for x in _ev_exprs(a):
@@ -943,7 +951,7 @@ def cs_gate(chk):
                         return None
             xa, xb = _ev_exprs(a), _ev_exprs(b)
             if len(xa) != len(xb):
-                chk.bad(a.stmt, 'the two sides of the complex-step gate differ in shape', 'gate-shape')
+                chk.unsure(a.stmt, 'the two sides of the complex-step gate differ in shape')
                 return None
             for p, q in zip(xa, xb):
                 if astx.dump(_strip_real(p)) != astx.dump(_strip_real(q)):
@@ -1329,16 +1337,12 @@ def layout(repo, out):
     rd = cfgm.ReachingDefs(g)
     lay = Layout(fn, loops[0], g, rd)
     tnames = {t.id for t in astx.assigned_targets(loops[0]) if isinstance(t, ast.Name)}
-    reshapes = []
 
     def range_of2(st):
         for n in astx.walk(st):
             if arr_slice(n):
                 if n.slice.step is not None or n.slice.lower is None or n.slice.upper is None:
                     raise Unsup(st, 'slice without explicit bounds')
-                par = getattr(n, '_parent', None)
-                if isinstance(par, ast.Attribute) and par.attr == 'reshape':
-                    reshapes.append(par._parent)
                 return n.slice.lower, n.slice.upper
         return None
 
@@ -1348,9 +1352,6 @@ def layout(repo, out):
 
 
 # --------------------------------------------------------------------------- view (named views alias the data)
-_COPY_ANY = set(_COPY_METHS) | {'real_if_close'}
-
-
 def _has_copy_call(e):
     for n in ast.walk(e):
         if isinstance(n, ast.Call):
@@ -1436,9 +1437,9 @@ def view(repo, out):
         for st in sts:
             stores = {}
             for ev in st.events:
-                if ev.kind == 'store' and astx.path(ev.a):
+                if ev.kind == 'store' and astx.path(ev.a) in ('self.view', 'self.flat'):
                     stores[astx.path(ev.a)] = ev
-                elif ev.kind not in ('store', 'return'):
+                elif ev.kind != 'return':
                     chk.unsure(ev.stmt, f'unrecognised statement `{astx.src(ev.stmt)}`')
             fl, vw = stores.get('self.flat'), stores.get('self.view')
             if fl is None or vw is None:
